@@ -163,3 +163,26 @@ for _k, _v in _ADD5.items():
     TEXT[_k]["level_text"] += _v
 ENGINES.append({"name": "asmlivein", "path": "/verif/tools/asmlivein.py", "serves_properties": ["C06", "C07", "C17"],
                 "kind_free_text": "backward liveness fixpoint over the control-flow graph of every amd64 assembly routine (go tool asm -S listing): registers read before written on some path from the entry"})
+
+# additions after the sixth round (DESIGN.md 8.6)
+_ADD6 = {
+ "C01": " Rejected-first-candidate streams also with keys handed over in 31 bytes and in 1 byte; a crowd part (24 / 192 / 2048 goroutines in flight, free-running, exact oracle).",
+ "C02": " Every stream also through a pool reader (Len() reports at most 16 buffered bytes, reads of at most 16 bytes); four million all-zero candidates before the first acceptable one.",
+ "C03": " x||y and r||s cut at another place than byte 32 (compensating lengths) through VerifyHashed, VerifyZa and Verify; public keys with small discrete logarithm with s = 2^k, 2^k+-1 at every k; a crowd part.",
+ "C04": " Messages of 2^32+5 and 2^32+64 bytes in one call; js/wasm and GOAMD64=v3 builds of the history driver.",
+ "C05": " A fresh-shared part (first calls on a freshly built Block by eight goroutines at once, thousands of fresh objects) and a js/wasm build of the public block driver (a target that is neither amd64, 386 nor arm64).",
+ "C06": " Arguments starting right behind / ending right in front of an inaccessible page for every short length and tag size; appending to destinations of 1..4097 bytes without room.",
+ "C07": " open-huge: additional data of 2^31+37 .. 2^32+21 bytes with a non-zero first block (exact oracle by exponentiation in GF(2^128)), accepted as is, rejected with one bit flipped or cut mod 2^32 / 2^31.",
+ "C10": " Every SM2 entry point with all arguments in read-only memory; destinations whose spare capacity behind the result is a read-only page; destination prefixes up to 2049 bytes.",
+ "C11": " A watchpoints part: hardware data watchpoints (perf_event_open) on the byte behind and in front of an argument lying in the middle of mapped memory.",
+ "C12": " Queries with their arguments in read-only memory; candidate streams whose last bytes arrive together with io.EOF.",
+ "C13": " Signatures with s in {1, 2, n-2, n-1} (key solved) through SignZa / VerifyZa against VerifyHashed; a message of 2^32+3 bytes in one piece.",
+ "C14": " Periodic scalars (a non-zero digit every p-th bit, p = 1..9) through every multiplication; scalars of 33, 64 and 66 bytes whose 32-byte chunks are built from the words of n (625 chunks).",
+ "C15": " Receivers that are shallow copies of an operand (same coordinate storage, different pointer); conversions must leave the stored coordinates of their receiver unchanged.",
+ "C16": " Decoder inputs in read-only memory; GOAMD64=v3 build.",
+ "C17": " Parts crowd (2048 goroutines in flight) and fresh-shared (first calls on fresh shared objects).",
+ "C19": " Every short script also with keys of 1 and 31 bytes and through readers whose dynamic type has Len() / Size() / Buffered().",
+ "C20": " Operands of 2^32+33 bytes (cmp-huge); GOAMD64=v3 and js/wasm builds.",
+}
+for _k, _v in _ADD6.items():
+    TEXT[_k]["level_text"] += _v
